@@ -822,7 +822,7 @@ Lemma host_block_applies e t c f opts ps body :
 Proof. unfold applies. cbn [b_hdr]. apply pattern_matches_spec. Qed.
 
 (* ---- the code before the repairs ----------------------------------------------------------------- *)
-Definition ex_env : env := Env [97;108] [98;111;120;46;108;97;110] [98;111;120;46;111;114;103] [47;104] toyhash.
+Definition ex_env : env := Env [97;108] [98;111;120;46;108;97;110] [98;111;120;46;111;114;103] [47;104] toyhash (fun _ => false) exec_stub.
 
 Lemma get_hostnames_v0_refuted :
   exists cfg, (exists b ps p, In b cfg /\ b_hdr b = HHost ps /\ In p ps) /\
@@ -891,13 +891,18 @@ Proof.
   rewrite !first_from_optfree by assumption. reflexivity.
 Qed.
 
+Definition crit_noexec (c : crit) : bool := match c_type c with CExec => false | _ => true end.
+
 Lemma dm_from_hu cs : forall m e t canonical final opts opts',
+  forallb crit_noexec cs = true ->
   dget opts s_hostname = dget opts' s_hostname ->
   dget opts s_user = dget opts' s_user ->
   dm_from m cs e t canonical final opts = dm_from m cs e t canonical final opts'.
 Proof.
-  induction cs as [|c cs IH]; intros m e t canonical final opts opts' Hh Hu; [reflexivity|].
-  cbn [dm_from]. rewrite (IH true e t canonical final opts opts' Hh Hu). rewrite Hh, Hu. reflexivity.
+  induction cs as [|c cs IH]; intros m e t canonical final opts opts' Hx Hh Hu; [reflexivity|].
+  cbn in Hx. apply andb_true_iff in Hx as [Hc Hx].
+  cbn [dm_from]. rewrite (IH true e t canonical final opts opts' Hx Hh Hu). rewrite Hh, Hu.
+  unfold crit_noexec in Hc. destruct (c_type c); try reflexivity. discriminate.
 Qed.
 
 Lemma dget_mini_h oh ou : dget (mini oh ou) s_hostname = oh.
@@ -906,44 +911,82 @@ Lemma dget_mini_u oh ou : dget (mini oh ou) s_user = ou.
 Proof. destruct oh, ou; reflexivity. Qed.
 
 Lemma applies_hu_eq e t c f opts b :
+  exec_free_block b = true ->
   applies e t c f opts b = applies_hu e t c f (dget opts s_hostname) (dget opts s_user) b.
 Proof.
-  unfold applies_hu, applies. destruct (b_hdr b) as [ps|cs]; [reflexivity|].
-  unfold does_match. apply dm_from_hu; [now rewrite dget_mini_h|now rewrite dget_mini_u].
+  unfold applies_hu, applies, exec_free_block. destruct (b_hdr b) as [ps|cs]; [reflexivity|].
+  intros Hx. unfold does_match. apply dm_from_hu; [exact Hx|now rewrite dget_mini_h|now rewrite dget_mini_u].
 Qed.
 
 Lemma first_from_sel e t c f cfg : forall opts k,
+  forallb exec_free_block cfg = true ->
   first_from e t c f cfg opts k = sel e t c f cfg (dget opts s_hostname) (dget opts s_user) k.
 Proof.
-  induction cfg as [|b cfg IH]; intros opts k; cbn [first_from sel]; [reflexivity|].
-  rewrite <- applies_hu_eq. destruct (applies e t c f opts b) eqn:Ea; [|apply IH].
+  induction cfg as [|b cfg IH]; intros opts k Hx; cbn [first_from sel]; [reflexivity|].
+  cbn in Hx. apply andb_true_iff in Hx as [Hb Hx].
+  rewrite <- applies_hu_eq by assumption. destruct (applies e t c f opts b) eqn:Ea; [|apply IH, Hx].
   destruct (dget (block_config (b_body b)) k); [reflexivity|].
-  rewrite IH. rewrite !apply_block_get by discriminate. rewrite Ea. reflexivity.
+  rewrite IH by assumption. rewrite !apply_block_get by discriminate. rewrite Ea. reflexivity.
 Qed.
 
 Lemma collected_coll e t c f cfg : forall opts,
+  forallb exec_free_block cfg = true ->
   collected e t c f cfg opts = coll e t c f cfg (dget opts s_hostname) (dget opts s_user).
 Proof.
-  induction cfg as [|b cfg IH]; intros opts; cbn [collected coll]; [reflexivity|].
-  rewrite <- applies_hu_eq. destruct (applies e t c f opts b) eqn:Ea; [|apply IH].
-  rewrite IH. rewrite !apply_block_get by discriminate. rewrite Ea. reflexivity.
+  induction cfg as [|b cfg IH]; intros opts Hx; cbn [collected coll]; [reflexivity|].
+  cbn in Hx. apply andb_true_iff in Hx as [Hb Hx].
+  rewrite <- applies_hu_eq by assumption. destruct (applies e t c f opts b) eqn:Ea; [|apply IH, Hx].
+  rewrite IH by assumption. rewrite !apply_block_get by discriminate. rewrite Ea. reflexivity.
 Qed.
 
 Lemma keep_none o : keep o None = o.
 Proof. destruct o; reflexivity. Qed.
 
 Lemma first_pass_hu e cfg host :
+  forallb exec_free_block cfg = true ->
   dget (first_pass e cfg host) s_hostname =
     keep (sel e host false false cfg None None s_hostname) (Some (VStr host)) /\
   dget (first_pass e cfg host) s_user = sel e host false false cfg None None s_user.
 Proof.
-  split.
-  - rewrite first_pass_get by discriminate. rewrite first_from_sel. reflexivity.
-  - rewrite first_pass_get by discriminate. rewrite first_from_sel. cbn [dget].
+  intros Hx. split.
+  - rewrite first_pass_get by discriminate. rewrite first_from_sel by assumption. reflexivity.
+  - rewrite first_pass_get by discriminate. rewrite first_from_sel by assumption. cbn [dget].
     change (zlist_eqb s_user s_hostname) with false. apply keep_none.
 Qed.
 
+(* the second pass in closed form, plain (c = false, t = host) or canonical (c = true) *)
+Lemma relookup_closed e cfg host t (c : bool) k :
+  forallb exec_free_block cfg = true ->
+  k <> s_identityfile ->
+  let sel1 := sel e host false false cfg None None in
+  let h1 := if c then Some (VStr t) else keep (sel1 s_hostname) (Some (VStr host)) in
+  dget (relookup e cfg host t c) k =
+  if zlist_eqb k s_hostname then h1 else keep (sel1 k) (sel e t c true cfg h1 (sel1 s_user) k).
+Proof.
+  intros Hx Hk sel1 h1. unfold relookup. rewrite pass_get by assumption.
+  rewrite first_from_sel by assumption.
+  destruct (first_pass_hu e cfg host Hx) as [Eh Eu].
+  set (D := if c then dset (first_pass e cfg host) s_hostname (VStr t) else first_pass e cfg host).
+  assert (Dh : dget D s_hostname = h1).
+  { unfold D, h1. destruct c; [apply dget_dset_same|exact Eh]. }
+  assert (Du : dget D s_user = sel1 s_user).
+  { unfold D. destruct c; [rewrite dget_dset_other by discriminate|]; exact Eu. }
+  rewrite Dh, Du. destruct (zlist_eqb k s_hostname) eqn:Ek.
+  - apply zlist_eqb_eq in Ek. subst k. rewrite Dh. unfold h1.
+    destruct c; [reflexivity|]. fold sel1. destruct (sel1 s_hostname); reflexivity.
+  - assert (Dk : dget D k = sel1 k).
+    { unfold D. destruct c; [rewrite dget_dset_other by (apply seqb_false, Ek)|];
+        (rewrite first_pass_get by assumption; rewrite first_from_sel by assumption; rewrite Ek;
+         cbn [dget]; apply keep_none). }
+    rewrite Dk. reflexivity.
+Qed.
+
+Lemma relookup_plain e cfg host :
+  lookup_raw e cfg host = (if in_fragment cfg then Some (relookup e cfg host host false) else None).
+Proof. reflexivity. Qed.
+
 Lemma lookup_raw_closed e cfg host raw k :
+  forallb exec_free_block cfg = true ->
   lookup_raw e cfg host = Some raw ->
   k <> s_identityfile ->
   let sel1 := sel e host false false cfg None None in
@@ -952,17 +995,163 @@ Lemma lookup_raw_closed e cfg host raw k :
        (if zlist_eqb k s_hostname then Some (VStr host)
         else sel e host false true cfg (keep (sel1 s_hostname) (Some (VStr host))) (sel1 s_user) k).
 Proof.
-  intros H Hk sel1. rewrite (lookup_raw_two_pass e cfg host raw k H Hk).
-  rewrite !first_from_sel. destruct (first_pass_hu e cfg host) as [Eh Eu]. rewrite Eh, Eu. reflexivity.
+  intros Hx H Hk sel1. rewrite (lookup_raw_two_pass e cfg host raw k H Hk).
+  rewrite !first_from_sel by assumption. destruct (first_pass_hu e cfg host Hx) as [Eh Eu]. rewrite Eh, Eu. reflexivity.
+Qed.
+
+Lemma relookup_idf e cfg host t (c : bool) :
+  forallb exec_free_block cfg = true ->
+  let sel1 := sel e host false false cfg None None in
+  let h1 := if c then Some (VStr t) else keep (sel1 s_hostname) (Some (VStr host)) in
+  get_list (relookup e cfg host t c) s_identityfile =
+  dedup_extend [] (coll e host false false cfg None None ++ coll e t c true cfg h1 (sel1 s_user)).
+Proof.
+  intros Hx sel1 h1. unfold relookup. rewrite pass_idf. rewrite collected_coll by assumption.
+  destruct (first_pass_hu e cfg host Hx) as [Eh Eu].
+  set (D := if c then dset (first_pass e cfg host) s_hostname (VStr t) else first_pass e cfg host).
+  assert (Dh : dget D s_hostname = h1).
+  { unfold D, h1. destruct c; [apply dget_dset_same|exact Eh]. }
+  assert (Du : dget D s_user = sel1 s_user).
+  { unfold D. destruct c; [rewrite dget_dset_other by discriminate|]; exact Eu. }
+  assert (Di : get_list D s_identityfile = dedup_extend [] (coll e host false false cfg None None)).
+  { unfold D. destruct c; [rewrite get_list_dset_other by discriminate|];
+      (rewrite first_pass_idf; rewrite collected_coll by assumption; reflexivity). }
+  rewrite Dh, Du, Di. apply dedup_extend_app.
 Qed.
 
 Lemma identityfile_closed e cfg host raw :
+  forallb exec_free_block cfg = true ->
   lookup_raw e cfg host = Some raw ->
   let sel1 := sel e host false false cfg None None in
   get_list raw s_identityfile =
   dedup_extend [] (coll e host false false cfg None None ++
                    coll e host false true cfg (keep (sel1 s_hostname) (Some (VStr host))) (sel1 s_user)).
 Proof.
-  intros H sel1. rewrite (lookup_raw_idf e cfg host raw H). rewrite !collected_coll.
-  destruct (first_pass_hu e cfg host) as [Eh Eu]. rewrite Eh, Eu. reflexivity.
+  intros Hx H sel1. unfold lookup_raw in H. destruct (in_fragment cfg); [|discriminate]. injection H as <-.
+  exact (relookup_idf e cfg host host false Hx).
+Qed.
+
+(* which second pass lookup() runs *)
+Lemma lookup_full_cases e cfg host d :
+  lookup_full e cfg host = Out d ->
+  (plan_of e cfg host = PlanPlain /\ d = expand e host (relookup e cfg host host false)) \/
+  (exists t, plan_of e cfg host = PlanCanon t /\ d = expand e t (relookup e cfg host t true)).
+Proof.
+  unfold lookup_full. destruct (in_fragment2 cfg); [|discriminate].
+  destruct (plan_of e cfg host) as [|t|x|] eqn:P; try discriminate; intros H; injection H as <-.
+  - left. auto.
+  - right. exists t. auto.
+Qed.
+
+Lemma plan_canon_spec e cfg host t :
+  plan_of e cfg host = PlanCanon t ->
+  let o1 := first_pass e cfg host in
+  canon_on o1 = true /\
+  (exists md, maxdots o1 = Some md /\ count_dots host <= md) /\
+  exists ds, dget o1 s_canonicaldomains = Some (VStr ds) /\
+    ((exists dom, In dom (split_ws ds) /\ t = host ++ 46 :: dom /\ e_resolves e t = true) \/
+     (t = host /\ forall dom, In dom (split_ws ds) -> e_resolves e (host ++ 46 :: dom) = false)).
+Proof.
+  intros H. cbv zeta. unfold plan_of in H. cbv zeta in H. set (o1 := first_pass e cfg host) in *.
+  destruct (maxdots o1) as [md|]; [|discriminate].
+  destruct (canon_on o1 && (count_dots host <=? md)) eqn:C; [|discriminate].
+  apply andb_true_iff in C as [C1 C2]. apply Z.leb_le in C2.
+  split; [exact C1|]. split; [eauto|].
+  destruct (dget o1 s_canonicaldomains) as [[| ds | l]|]; try discriminate.
+  exists ds. split; [reflexivity|].
+  unfold canonicalize in H.
+  destruct (find (fun d => e_resolves e (host ++ 46 :: d)) (split_ws ds)) as [dom|] eqn:F.
+  - injection H as <-. apply find_some in F as [Hin Hr]. left. exists dom. auto.
+  - right. assert (forall dom, In dom (split_ws ds) -> e_resolves e (host ++ 46 :: dom) = false)
+      by (intros dom Hin; exact (find_none _ _ F dom Hin)).
+    split; [|assumption].
+    destruct (dget o1 s_canonicalizefallbacklocal) as [[| v | l]|]; try discriminate.
+    + destruct (zlist_eqb v s_yes); [|discriminate]. now injection H as <-.
+    + now injection H as <-.
+Qed.
+
+Lemma plan_plain_spec e cfg host :
+  plan_of e cfg host = PlanPlain ->
+  let o1 := first_pass e cfg host in
+  exists md, maxdots o1 = Some md /\ (canon_on o1 = false \/ md < count_dots host).
+Proof.
+  intros H. cbv zeta. unfold plan_of in H. cbv zeta in H. set (o1 := first_pass e cfg host) in *.
+  destruct (maxdots o1) as [md|]; [|discriminate]. exists md. split; [reflexivity|].
+  destruct (canon_on o1); [|auto]. cbn [andb] in H.
+  destruct (count_dots host <=? md) eqn:C.
+  - destruct (dget o1 s_canonicaldomains) as [[| ds | l]|]; try discriminate.
+    destruct (canonicalize e host o1 (split_ws ds)); discriminate.
+  - right. apply Z.leb_gt in C. exact C.
+Qed.
+
+(* ---- lookup_full extends lookup: without the canonicalisation keys it is the plain two-pass lookup -- *)
+Lemma dget_in_keys d k v : dget d k = Some v -> In k (map fst d).
+Proof.
+  induction d as [|[k' v'] d IH]; cbn; [discriminate|].
+  destruct (zlist_eqb k' k) eqn:E; [apply zlist_eqb_eq in E; auto|auto].
+Qed.
+
+Lemma parse_line_keys d kv x : In x (map fst (parse_line d kv)) -> In x (map fst d) \/ x = fst kv.
+Proof.
+  destruct kv as [k v]. unfold parse_line. cbn [fst].
+  destruct (zlist_eqb k s_proxycommand && zlist_eqb (lower v) s_none); [apply in_keys_dset|].
+  destruct (list_key k).
+  - destruct (dget d k) as [[| |l]|]; auto; apply in_keys_dset.
+  - destruct (dmem d k); [auto|apply in_keys_dset].
+Qed.
+
+Lemma block_config_keys body x : In x (map fst (block_config body)) -> In x (map fst body).
+Proof.
+  unfold block_config.
+  assert (G : forall d, In x (map fst (fold_left parse_line body d)) -> In x (map fst d) \/ In x (map fst body)).
+  { induction body as [|kv body IH]; intros d H; cbn in *; [auto|].
+    destruct (IH _ H) as [H1|H1]; [|auto]. apply parse_line_keys in H1 as [H1|H1]; auto. }
+  intros H. destruct (G [] H) as [[]|H1]. exact H1.
+Qed.
+
+Lemma first_from_key e t c f cfg : forall opts k v,
+  first_from e t c f cfg opts k = Some v -> exists b, In b cfg /\ In k (map fst (b_body b)).
+Proof.
+  induction cfg as [|b cfg IH]; intros opts k v H; cbn [first_from] in H; [discriminate|].
+  destruct (applies e t c f opts b).
+  - destruct (dget (block_config (b_body b)) k) eqn:E.
+    + exists b. split; [left; reflexivity|]. eapply block_config_keys, dget_in_keys, E.
+    + destruct (IH _ _ _ H) as (b' & Hb & Hk). exists b'. split; [right; exact Hb|exact Hk].
+  - destruct (IH _ _ _ H) as (b' & Hb & Hk). exists b'. split; [right; exact Hb|exact Hk].
+Qed.
+
+Lemma first_pass_excluded e cfg host k :
+  in_fragment cfg = true -> excluded_key k = true -> dget (first_pass e cfg host) k = None.
+Proof.
+  intros Hf Hk.
+  assert (Hi : k <> s_identityfile) by (intros ->; discriminate).
+  assert (Hh : zlist_eqb k s_hostname = false).
+  { destruct (zlist_eqb k s_hostname) eqn:E; [|reflexivity]. apply zlist_eqb_eq in E. subst k. discriminate. }
+  rewrite first_pass_get by assumption. rewrite Hh.
+  destruct (first_from e host false false cfg [] k) eqn:F; [|reflexivity].
+  apply first_from_key in F as (b & Hb & Hin). exfalso.
+  unfold in_fragment in Hf. pose proof (proj1 (forallb_forall _ _) Hf b Hb) as Hbb.
+  apply in_map_iff in Hin as (kv & <- & Hkv).
+  pose proof (proj1 (forallb_forall _ _) Hbb kv Hkv) as N. cbn beta in N. rewrite Hk in N. discriminate.
+Qed.
+
+Lemma in_fragment_2 cfg : in_fragment cfg = true -> in_fragment2 cfg = true.
+Proof.
+  unfold in_fragment, in_fragment2. intros H. apply forallb_forall. intros b Hb.
+  pose proof (proj1 (forallb_forall _ _) H b Hb) as Hbb. apply forallb_forall. intros kv Hkv.
+  pose proof (proj1 (forallb_forall _ _) Hbb kv Hkv) as N. cbn beta in N. apply negb_true_iff in N. apply negb_true_iff.
+  unfold excluded_key in N. unfold excluded_key2.
+  destruct (zlist_eqb (fst kv) s_canonicalizehostname), (zlist_eqb (fst kv) s_canonicalizemaxdots); cbn in N; try discriminate; exact N.
+Qed.
+
+Lemma lookup_full_extends e cfg host d :
+  lookup e cfg host = Some d -> lookup_full e cfg host = Out d.
+Proof.
+  unfold lookup, lookup_raw. destruct (in_fragment cfg) eqn:Hf; [|discriminate]. intros H. injection H as <-.
+  unfold lookup_full. rewrite (in_fragment_2 cfg Hf).
+  assert (P : plan_of e cfg host = PlanPlain).
+  { unfold plan_of, maxdots, canon_on.
+    rewrite (first_pass_excluded e cfg host s_canonicalizemaxdots Hf eq_refl).
+    rewrite (first_pass_excluded e cfg host s_canonicalizehostname Hf eq_refl). reflexivity. }
+  rewrite P. reflexivity.
 Qed.
